@@ -2,7 +2,7 @@
 #include "wl_common.h"
 
 #define MAXT 8
-enum { B_RETURN = 0, B_EXIT, B_CANCELLED, B_BLOCKS_FIRST, B_N };
+enum { B_RETURN = 0, B_EXIT, B_CANCELLED, B_BLOCKS_FIRST, B_EXIT_TO, B_N };
 enum { J_PRIMARY = 0, J_ULT, J_TASKLET, J_EXT, J_N };
 enum { W_BEFORE = 0, W_DURING, W_AFTER };
 
@@ -12,6 +12,8 @@ typedef struct target {
     volatile int started, finished, ticks, stop;
     volatile uint64_t last_write;
     ABT_eventual ev;
+    ABT_thread helper; /* B_EXIT_TO: a never-started ULT held outside any pool, the exit target */
+    volatile int helper_ran;
     /* joiner */
     int jkind, jpool, when, use_join_first, group; /* group >= 0: joined with the _many variant */
     volatile int joined;
@@ -24,6 +26,13 @@ static struct {
     int n;
     long futex_joins;
 } S;
+
+static void helper_fn(void *arg)
+{
+    target *t = (target *)arg;
+    t->helper_ran++;
+    sim_progress();
+}
 
 static void target_fn(void *arg)
 {
@@ -61,6 +70,11 @@ static void target_fn(void *arg)
     t->last_write = 0xfeed0000ULL + (uint64_t)t->id;
     t->finished = 1;
     sim_progress();
+    if (t->behaviour == B_EXIT_TO && !t->is_task) {
+        /* terminates by handing the stream directly to another ULT */
+        ABT_self_exit_to(t->helper);
+        sim_fail("join:exit-returned", "ABT_self_exit_to returned to the caller");
+    }
     if (t->behaviour == B_EXIT && !t->is_task) {
         if (t->yields & 1)
             ABT_thread_exit();
@@ -181,7 +195,7 @@ static void run_c03(void)
     wl_rt_start(rt, WL_RT_NO_TOPO2);
     int n = plan_range(1, sim_limit("targets", 6));
     S.n = n;
-    static const char *bn[] = { "ret", "exit", "cancel", "blocks" };
+    static const char *bn[] = { "ret", "exit", "cancel", "blocks", "exit_to" };
     static const char *jn[] = { "primary", "ult", "tasklet", "ext" };
     sim_note("C03 targets=%d: ", n);
     /* joiners: joiner k handles targets assigned to it; joiner 0 is the primary itself */
@@ -255,8 +269,17 @@ static void run_c03(void)
     for (int j = 0; j < njoiners; j++)
         JN[j].kind = jkind[j];
     /* create targets */
+    ABT_pool park;
+    ABT_OK(ABT_pool_create_basic(ABT_POOL_FIFO, ABT_POOL_ACCESS_MPMC, ABT_FALSE, &park));
     for (int i = 0; i < n; i++) {
         target *t = &S.T[i];
+        if (t->behaviour == B_EXIT_TO && !t->is_task) {
+            /* READY, never started, in no pool; associated with the target's pool */
+            ABT_thread x;
+            ABT_OK(ABT_thread_create(park, helper_fn, t, ABT_THREAD_ATTR_NULL, &t->helper));
+            ABT_OK(ABT_pool_pop_thread(park, &x));
+            ABT_OK(ABT_thread_set_associated_pool(t->helper, rt->pools[t->pool]));
+        }
         if (t->is_task)
             ABT_OK(ABT_task_create(rt->pools[t->pool], target_fn, t, &t->th));
         else
@@ -314,7 +337,12 @@ static void run_c03(void)
         SIM_CHECK(t->ticks == t->ticks_at_join, "join:target-ran-after-join", "target %d executed %d more iterations after its join returned", i, t->ticks - t->ticks_at_join);
         if (t->behaviour == B_BLOCKS_FIRST && !t->is_task)
             ABT_OK(ABT_eventual_free(&t->ev));
+        if (t->behaviour == B_EXIT_TO && !t->is_task) {
+            ABT_OK(ABT_thread_free(&t->helper));
+            SIM_CHECK(t->helper_ran == 1, "once:not-exactly-once", "the ULT that target %d exited to ran %d times", i, t->helper_ran);
+        }
     }
+    ABT_OK(ABT_pool_free(&park));
     wl_rt_stop(rt);
 }
 SIM_WORKLOAD("C03", "join-matrix", run_c03, 10)
